@@ -26,6 +26,7 @@ Slopes(R, salt, ident) == [r \in 1..R |-> [f \in 1..3 |-> [v \in 1..V |->
 Offs(R) == [r \in 1..R |-> [f \in 1..3 |-> ((r + f) % 3) - 1]]
 RW(R, w) == CASE w = 1 -> [r \in 1..R |-> 1] [] w = 2 -> [r \in 1..R |-> <<1, 2, 0, 1>>[r]]
               [] w = 3 -> [r \in 1..R |-> <<2, 1, 3, 1>>[r]]
+              [] w = 4 -> [r \in 1..R |-> <<3, -1, 2, 1>>[r]]        \* a negative weight (the sum stays positive)
 EstOf(i) == <<IF i \in {2,4} THEN "std" ELSE "mean", IF i \in {3,4} THEN "std" ELSE "mean", IF i \in {3} THEN "std" ELSE "mean">>
 FltOf(i) == CASE i = 1 -> <<-1, -1, -1>> [] i = 2 -> <<0, -1, -1>> [] i = 3 -> <<1, 1, -1>> [] i = 4 -> <<-1, 0, 1>>
               [] i = 5 -> <<-1, -1, 2>> [] i = 6 -> <<0, 3, 3>>          \* the constraint flavours (CVaR / sort on the constraint)
@@ -40,6 +41,9 @@ InitC02 == \E R \in RSet : \E P \in PSet : \E m \in MaskSet : \E d \in DesSet : 
            \E salt \in SaltSet : \E e \in EstSet : \E fi \in FltSet : \E w \in WSet :
            \E nf \in 0..1 : \E np \in 0..3 : \E pms \in {1, P - 1, P} : \E merged \in BOOLEAN : \E ident \in BOOLEAN :
              /\ (merged => e = 1)                  \* the stddev estimator rejects merged gradients at configuration time
+             \* a negative realization weight has an agreed meaning for the plain weighted mean only (no filter, no deviation,
+             \* per-realization estimation): with anything else the code and the kernel disagree in every direction - not pursued
+             /\ (w = 4 => e = 1 /\ fi = 1 /\ ~merged)
              /\ (ident => merged)                  \* identical realizations only matter for merged estimation
              /\ (merged => shared \/ ident)        \* the statement covers merged estimation only in these cases
              \* (a zero objective weight where the filter keyed on that objective is not in use: its gradient row is still reported)
